@@ -139,8 +139,9 @@ def proofOp (s : DState) (rest : List String) : String :=
       | some core =>
         let idx : Int := match core.index with | some i => (i : Int) | none => -1
         let byHash := kv rest "form" == some "hash"
+        let both := kv rest "form" == some "both"
         let p0 : MProof := { index := idx, core := core, header := if byHash then none else some hd,
-                             blockHash := if byHash then some hd.id else none }
+                             blockHash := if byHash || both then some hd.id else none }
         let mu := (kv rest "mut").getD "none"
         let p : Option MProof :=
           if mu == "none" then some p0
@@ -155,7 +156,11 @@ def proofOp (s : DState) (rest : List String) : String :=
             | none => none
           else if mu.startsWith "other:" then
             match ((mu.drop 6).toString.toNat?).bind (fun o => List.lookup o s.hdrs) with
-            | some oh => some { p0 with header := if byHash then none else some oh, blockHash := if byHash then some oh.id else none }
+            | some oh => some { p0 with header := if byHash then none else some oh, blockHash := if byHash then some oh.id else p0.blockHash }
+            | none => none
+          else if mu.startsWith "otherhash:" then
+            match ((mu.drop 10).toString.toNat?).bind (fun o => List.lookup o s.hdrs) with
+            | some oh => some { p0 with blockHash := some oh.id }
             | none => none
           else if mu == "unknownhash" then some { p0 with header := none, blockHash := some 777777 }
           else if mu == "noblock" then some { p0 with header := none, blockHash := none }
